@@ -207,6 +207,27 @@ Proof.
 Qed.
 Print Assumptions sender_auth_asis_refuted.
 
+(* ... and whatever the letter case of member names does to the routing: a protected member spelled 'SKID' / 'Skid' is no
+   skid for JWEDecrypt and the packers (map lookup) but still routes the envelope to the authcrypt packer (the packager
+   decodes the header with encoding/json, case-insensitively).  For BOTH routings the conclusion is the same: a sender
+   is reported only from an exactly spelled, authenticated skid. *)
+Theorem integrity_jwe_packager_anycase : forall cv adv hs party E m s to,
+  wf_jwe adv hs E ->
+  (forall k, In k party -> adv k = false) ->
+  (forall h k, In h hs -> In k party -> rn_eph (h_rnd h) <> k) ->
+  unpack_pkgr_cv cv Fixed party (WJwe E) = Ok (m, Some s, to) ->
+  adv s = true \/
+  exists h, In h hs /\ packer_of (h_cfg h) = JweAuth /\ m = Bytes (h_payload h) /\ s = h_sender h /\
+            exists k, In k party /\ In k (h_rcpts h).
+Proof.
+  intros cv adv hs party E m s to Hwf Hp He. unfold unpack_pkgr_cv, dispatch_cv, dispatch.
+  destruct (j_prot E) as [prot|]; [|discriminate]. destruct (p_skid prot); [|destruct cv].
+  - exact (sender_auth_jwe_lemma adv hs party E m s to Hwf Hp He).
+  - exact (sender_auth_jwe_lemma adv hs party E m s to Hwf Hp He).
+  - cbn [unpack]. intros H. apply unpack_jwe_anon_from in H. discriminate.
+Qed.
+Print Assumptions integrity_jwe_packager_anycase.
+
 (* CHARACTER LEVEL (C02/Text.v: the model decodes the base64url members of the serialized envelope itself, with Go's
    decoder semantics).  "every byte/bit position of every base64 field": for EVERY byte string, EVERY position of its
    canonical base64url encoding and EVERY replacement character, the altered segment decodes to the SAME bytes exactly
